@@ -2,7 +2,7 @@
 
 use super::sgen;
 use super::util::*;
-use super::{bad, dec_as_blocks, dec_as_resources, dec_ip_blocks, dec_ip_families, dec_ip_resources, probe_blocks, roa_probes, typed_from_json, typed_from_str};
+use super::{bad, dec_as_blocks, dec_as_resources, dec_ip_ber, dec_ip_blocks, dec_ip_families, dec_ip_resources, probe_blocks, roa_probes, typed_from_json, typed_from_str};
 use crate::engine::*;
 use crate::gen::U128;
 use crate::iset::{self, ISet};
@@ -208,6 +208,43 @@ fn run_rset_inner(c: &RsetCase, obs: &mut Obs) -> CheckResult {
         "c03:limit-serde",
         "RequestResourceLimit {:?} comes back from its JSON form {} as {:?}", lim, js, back
     );
+    // The same limit in the other spellings the deserialiser documents: the older member
+    // names "v4" / "v6", and "none" for a type without limit. Such a document may be
+    // refused, but it must never come back as a different limit.
+    {
+        let v: serde_json::Value = serde_json::from_str(&js).map_err(bad("limit JSON"))?;
+        let obj = v.as_object().cloned().unwrap_or_default();
+        for style in 0..3u8 {
+            let mut o = serde_json::Map::new();
+            for (k, val) in &obj {
+                let k2 = match (style, k.as_str()) {
+                    (0 | 2, "ipv4") => "v4",
+                    (0 | 2, "ipv6") => "v6",
+                    _ => k.as_str(),
+                };
+                o.insert(k2.to_string(), val.clone());
+            }
+            if style >= 1 {
+                for (k, present) in [("asn", obj.contains_key("asn")), (if style == 2 { "v4" } else { "ipv4" }, obj.contains_key("ipv4")), (if style == 2 { "v6" } else { "ipv6" }, obj.contains_key("ipv6"))] {
+                    if !present {
+                        o.insert(k.to_string(), serde_json::Value::String("none".into()));
+                    }
+                }
+            }
+            let text = serde_json::Value::Object(o).to_string();
+            match serde_json::from_str::<RequestResourceLimit>(&text) {
+                Err(_) => obs.label("limit-legacy-json-refused"),
+                Ok(b) => {
+                    obs.label("limit-legacy-json-accepted");
+                    ensure_sig!(
+                        b == lim && b.asn() == lim.asn() && b.ipv4() == lim.ipv4() && b.ipv6() == lim.ipv6(),
+                        "c03:limit-serde",
+                        "RequestResourceLimit {:?} written as {} (older member names / \"none\") comes back as {:?}", lim, text, b
+                    );
+                }
+            }
+        }
+    }
     let empty_limit = [c.limit_asn.as_ref(), c.limit_v4.as_ref(), c.limit_v6.as_ref()].iter().any(|l| l.map(|l| val_model(l).is_empty()).unwrap_or(false));
     obs.label_if(empty_limit, "limit-explicitly-empty");
     match (back.apply_to(&a), lim.apply_to(&a)) {
@@ -497,12 +534,54 @@ pub struct DerCase {
     pub fam: Fam,
     /// lo > hi: written as an inverted range
     pub blocks: Vec<Blk>,
+    /// non-zero: the list is also offered to BER-mode decoders with the unused bits of
+    /// its BIT STRINGs set from this seed (BER leaves their value open; they are not
+    /// part of the address)
+    #[serde(default)]
+    pub ber_pad: u32,
+}
+
+/// Sets unused bits of every BIT STRING below `b` (a concatenation of TLVs with
+/// definite lengths); returns how many bit strings had unused bits.
+fn set_padding(b: &mut [u8], st: &mut u32) -> usize {
+    let mut n = 0;
+    let mut pos = 0;
+    while pos + 2 <= b.len() {
+        let tag = b[pos];
+        let (len, hdr) = match b[pos + 1] {
+            l if l < 0x80 => (l as usize, 2),
+            0x81 if pos + 3 <= b.len() => (b[pos + 2] as usize, 3),
+            0x82 if pos + 4 <= b.len() => (((b[pos + 2] as usize) << 8) | b[pos + 3] as usize, 4),
+            _ => return n,
+        };
+        let (cs, ce) = (pos + hdr, pos + hdr + len);
+        if ce > b.len() {
+            return n;
+        }
+        if tag == 0x30 {
+            n += set_padding(&mut b[cs..ce], st);
+        } else if tag == 0x03 && len >= 2 {
+            let unused = b[cs];
+            if (1..=7).contains(&unused) {
+                *st = st.wrapping_mul(1_664_525).wrapping_add(1_013_904_223);
+                let mask = (1u8 << unused) - 1;
+                let mut bits = (*st >> 16) as u8 & mask;
+                if bits == 0 {
+                    bits = 1;
+                }
+                b[ce - 1] |= bits;
+                n += 1;
+            }
+        }
+        pos = ce;
+    }
+    n
 }
 
 fn der_strategy(_: Tier) -> BoxedStrategy<DerCase> {
     sgen::fam_strategy()
         .prop_flat_map(|fam| {
-            (sgen::seq(fam), 0u8..10, prop::collection::vec(0u8..8, 12)).prop_map(move |(mut blocks, how, mask)| {
+            (sgen::seq(fam), 0u8..10, prop::collection::vec(0u8..8, 12), prop_oneof![Just(0u32), any::<u32>()]).prop_map(move |(mut blocks, how, mask, ber_pad)| {
                 if how >= 4 {
                     for (b, m) in blocks.iter_mut().zip(mask) {
                         if m == 0 || (how == 9 && m < 4) {
@@ -514,7 +593,7 @@ fn der_strategy(_: Tier) -> BoxedStrategy<DerCase> {
                         }
                     }
                 }
-                DerCase { fam, blocks }
+                DerCase { fam, blocks, ber_pad }
             })
         })
         .boxed()
@@ -583,6 +662,26 @@ fn run_der_inner(c: &DerCase, obs: &mut Obs) -> CheckResult {
                     verdict(name, true, String::new())?;
                 }
                 Err(e) => verdict(name, false, e)?,
+            }
+        }
+        // The same list as a BER writer may put it: unused bits of the BIT STRINGs not
+        // zero. A decoder in BER mode may refuse it; what it returns is the same set.
+        if c.ber_pad != 0 && !c.blocks.is_empty() {
+            let mut padded = raw.clone();
+            let mut st = c.ber_pad;
+            if set_padding(&mut padded, &mut st) > 0 {
+                for (name, r) in dec_ip_ber(&padded, fam) {
+                    match r {
+                        Ok(s) => {
+                            obs.label("ber-padding-accepted");
+                            check_ip(name, fam, &s, &m).map_err(|mut f| {
+                                f.msg = format!("{} (BIT STRINGs with non-zero unused bits: {:02x?})", f.msg, padded);
+                                f
+                            })?;
+                        }
+                        Err(_) => obs.label("ber-padding-refused"),
+                    }
+                }
             }
         }
     }
